@@ -202,7 +202,6 @@ def rhOut (out : Tile.ReadOut H) (gtiles : List GTile) (data : List Bytes) (msg 
   ((match out.result with | .ok hs => (hs, none) | .error _ => ([], msg)),
    (match out.saved with | some _ => [(gtiles, data)] | none => []))
 
-set_option maxHeartbeats 1000000 in
 theorem ReadHashes_eq (fuel h N : Nat) (th : H) (idx : List Nat) (RT : List GTile → List Bytes × Option String)
     (serve : Tile.Tile → Option (List H)) (h1 : 1 ≤ h) (h57 : h ≤ 57) (hN : N < 2 ^ 62)
     (hserve : ServeRel ofBytes RT serve (planTiles h N idx)) (htl : (planTiles h N idx).length < 2 ^ 63)
